@@ -13,7 +13,7 @@ import os
 import random
 import re
 
-from common import Driver, Violation, make_request, runner, mix64
+from common import Driver, Violation, make_request, runner, mix64, Event, Result
 import build as jbuild
 import c10_image as img
 from c10_janet import CORPUS_SRC, PRELUDE, ASM_SOURCES
@@ -32,7 +32,7 @@ TEAR_OFFSETS_PER_CHUNK = 150
 FIELDS_PER_CHUNK = 2
 ALL_MASK = 511
 MAX_RERUNS = 8
-SHRINK_BUDGET = 30
+SHRINK_BUDGET = 16
 
 
 def flip_values(orig):
@@ -209,7 +209,7 @@ def a_desc(r, depth, parents):
 # ------------------------------------------------------------------------------------------------
 # reading the log of a run
 
-MARK_RE = re.compile(r"^@([LXD])(\d+)$", re.M)
+MARK_RE = re.compile(r"^@([LXD])(\d+)([+-]?)$", re.M)
 STAT_RE = re.compile(r"^@S (.*)$", re.M)
 FRAME_RE = re.compile(r"#\d+ 0x[0-9a-f]+ in (\S+) (\S*src/core/\w+\.[ch])(?::(\d+))?")
 ASAN_RE = re.compile(r"ERROR: AddressSanitizer: ([^\n]*)")
@@ -281,9 +281,9 @@ def label_at(path, line):
 
 
 def read_log(log):
-    """-> dict(idx, phase, done, stats, started=set of case ids whose load finished)"""
+    """-> dict(idx, phase, done, stats, loaded={case id: True/False for every case whose load returned})"""
     last = None
-    finished = set()
+    loaded = {}
     done = False
     for m in MARK_RE.finditer(log):
         tag, i = m.group(1), int(m.group(2))
@@ -293,7 +293,7 @@ def read_log(log):
         else:
             last = (tag, i)
             if tag == "X":
-                finished.add(i)
+                loaded[i] = m.group(3) == "+"
     stats = {}
     m = STAT_RE.search(log)
     if m:
@@ -304,7 +304,7 @@ def read_log(log):
             except ValueError:
                 pass
     return {"phase": last[0] if last else None, "idx": last[1] if last else None, "done": done, "stats": stats,
-            "finished": finished}
+            "loaded": loaded}
 
 
 def norm_msg(s):
@@ -350,9 +350,11 @@ def sanitizer_facts(log):
         lab = label_at(f.group(2), int(f.group(3)))
         if lab:
             top += "@" + lab
-    # which object was overrun / used after free: the function that allocated it (first frame above the allocator wrappers)
-    a = re.search(r"^(?:allocated|previously allocated|freed) by thread", log[pos:], re.M)
-    if cls == "asan" and a:
+    # which object was overrun / used after free: the function that allocated it (first frame above the allocator
+    # wrappers).  Only when the access is next to or inside that object: a wild pointer lands near arbitrary objects.
+    loc = re.search(r"is located (\d+) bytes (?:to the right of|to the left of|after|before|inside of)", log[pos:])
+    a = re.search(r"^(?:previously )?allocated by thread", log[pos:], re.M)
+    if cls == "asan" and kind.startswith("heap-buffer-overflow") and a and loc and int(loc.group(1)) <= 64:
         for g in FRAME_RE.finditer(log, pos + a.start()):
             if g.group(1) not in ALLOC_WRAPPERS:
                 top += "/obj=" + g.group(1)
@@ -776,61 +778,81 @@ class C10(Driver):
         return [v] if v else []
 
     def batch_timeout(self, n):
-        return 2500 + 25 * n
+        return 2500 + 15 * n
 
     def execute(self, plan):
+        """run the batch; when a case ends the child (violation, or loaded code that loops/blocks/exhausts memory) note
+        it and run the rest of the batch in a new child.  The returned Result is a synthetic per-case history (load status
+        and fate of every case), so that it does not depend on where a wall-clock kill happened to fall."""
         cases = plan["cases"]
         pending = list(range(len(cases)))
         vs = []
-        primary = None
         stats = {}
-        executed = 0
+        fate = {}             # case -> text
         reruns = 0
         benign = {}
         killer = None
+        first_bad = None
+        wall = 0
+        logs = []
         r = runner("asan")
         while pending:
             res = r.run(self.render(plan, pending), self.batch_timeout(len(pending)))
-            if primary is None:
-                primary = res
+            wall += res.wall_us
             info = read_log(res.log or "")
             verdict, v = self.judge(plan, res, info)
-            if verdict == "violation" and res.outcome == "timeout":
-                # confirm a hang of the loader on its own with a generous limit
-                res2 = r.run(self.render(plan, [info["idx"]]), 2 * self.timeout_ms)
+            idx = info["idx"]
+            if res.outcome == "timeout" and idx is not None:
+                # a wall-clock kill: is it this case (a loop in loaded code, or a hang of the loader) or just a slow
+                # machine?  run the case alone with a generous limit
+                res2 = r.run(self.render(plan, [idx]), 2 * self.timeout_ms if info["phase"] == "L" else 6000)
+                wall += res2.wall_us
                 info2 = read_log(res2.log or "")
-                verdict, v = self.judge(plan, res2, info2)
                 if res2.outcome == "ok":
-                    verdict, v = "benign", None
+                    # slow machine: the case is fine; what was done before it counts, go on after it
+                    verdict, v = "slow", None
+                    info["loaded"].update(info2["loaded"])
+                    for k, n in info2["stats"].items():
+                        stats[k] = stats.get(k, 0) + n
+                else:
+                    verdict, v = self.judge(plan, res2, info2)
+                    res = res2
             for k, n in info["stats"].items():
                 stats[k] = stats.get(k, 0) + n
+            for i, ok in info["loaded"].items():
+                fate.setdefault(i, "loaded" if ok else "rejected")
             if verdict == "ok":
-                executed += len(pending)
                 break
-            idx = info["idx"]
             if verdict == "violation":
                 vs.append(v)
+                fate[idx if idx is not None and idx >= 0 else len(cases)] = "violation " + v.sig
                 if killer is None:
                     killer = idx
+                    first_bad = res
+                logs.append(res.log or "")
             elif verdict == "benign-arith":
                 benign["arith_ub_in_exercise"] = benign.get("arith_ub_in_exercise", 0) + 1
-            else:
+                fate[idx] = fate.get(idx, "") + " ended:arith"
+            elif verdict != "slow":
                 tag = "case_%s_in_exercise" % res.outcome.split(":")[0]
                 benign[tag] = benign.get(tag, 0) + 1
+                fate[idx] = fate.get(idx, "") + " ended:" + res.outcome
             if idx is None or idx not in pending:
                 break
-            at = pending.index(idx)
-            executed += at + 1
-            pending = pending[at + 1:]
+            pending = pending[pending.index(idx) + 1:]
             reruns += 1
             if reruns > MAX_RERUNS:
                 break
-        if primary is None:
-            primary = r.run(self.render(plan, []), self.timeout_ms)
+        executed = sum(1 for i in range(len(cases)) if i in fate)
         self._killer[self.plan_key(plan)] = killer
         stats.update(benign)
         stats["cases_executed"] = executed
         stats["cases_skipped"] = len(cases) - executed
+        events = [Event(i, 0, 0, "case", "%d %s" % (i, fate.get(i, "skipped"))) for i in range(len(cases) + 1) if i in fate or i < len(cases)]
+        if first_bad is not None:
+            primary = Result(first_bad.how, first_bad.code, wall, events, "\n".join(logs)[:200000])
+        else:
+            primary = Result("exit", 0, wall, events, "")
         primary.c10 = {"stats": stats, "enum": plan.get("enum"), "complete": executed == len(cases), "ncases": len(cases),
                        "leg": plan["leg"]}
         seen = set()
@@ -878,7 +900,7 @@ class C10(Driver):
                 done = [i for i in ids if i in enum_done]
                 offsets = sum(chunks[i][3] - chunks[i][2] for i in ids)
                 ex[kind] = {
-                    "exhaustive": len(done) == len(ids) and len(ids) > 0,
+                    "exhaustive": len(done) == len(ids) and len(ids) > 0, "chunks_total": len(ids), "chunks_done": len(done),
                     "over": {"tear": "every offset of every seed image",
                              "flip": "every offset of every seed image x substitution set {00,01,7F,80,BF,C0,C7,C8..E8 (lead "
                                      "bytes),E9,F0,F1,F8,F9,FE,FF,orig+1,orig-1}",
@@ -889,10 +911,13 @@ class C10(Driver):
                     "positions_covered": sum(chunks[i][3] - chunks[i][2] for i in done),
                     "cases_executed": sum(enum_done[i] for i in done),
                 }
-            out["exhaustive"] = ex
+            out["enumeration"] = ex
+            # the claim of this level: tear and flip visited at every offset of every seed image in this run
+            out["exhaustive"] = bool(ex["tear"]["exhaustive"] and ex["flip"]["exhaustive"])
             out["seed_corpus"] = {n: len(b) for n, b, _ in self.corpus()}
         except Exception as e:  # evidence only
-            out["exhaustive"] = {"error": str(e)}
+            out["enumeration"] = {"error": str(e)}
+            out["exhaustive"] = False
         return out
 
     # ---- shrinking -------------------------------------------------------------------------------
